@@ -22,7 +22,13 @@ CONF = dict(
           'most recent or older than the 8 kept), requests naming another client\'s exchange (other address / same host under another ISD-AS / same ISD-AS other host / '
           'the other listener), duplicated request datagrams, origin on record but receive == transmit field; observed: origin, receive, transmit and reference stamp of every '
           'reply datagram. A client is what the listeners key the store with: the source address (IP) or (ISD-AS, host address) (SCION); the UDP port is not part of the identity. '
-          'Non-trivial = at least one interleaved reply and one request naming another client\'s exchange; distinct = distinct (kind, input)'),
+          'Non-trivial = at least one interleaved reply and one request naming another client\'s exchange. '
+          'lsn.slowlink: the same listeners in a network namespace of their own whose loopback is rate-limited (unshare -n; tc tbf 256kbit burst 1540): one client socket per history sends bursts of 1..6 '
+          'requests back to back, pauses 0..250 ms, and continues interleaved with the receive stamps of the previous bursts; replies that find the token bucket empty are transmitted milliseconds after '
+          'sendmsg, so the listener cannot read their kernel transmit timestamp in time and the stamp arrives late. Observed besides the datagrams: the harness\'s clock reading after each reply and the '
+          'listener\'s own "failed to read packet tx timestamp" reports, attributed to exchanges by time. Oracle: the listener oracle plus - an exchange reported unread is never served; a served transmit '
+          'stamp is not earlier than the transmit field of the earlier BASIC reply it belongs to and not later than the moment the client had that reply. Non-trivial = an interleaved reply after an '
+          'unread stamp on that socket. Skipped with a NOTE (no floor) where unshare/tc are not permitted; distinct = distinct (kind, input)'),
     assumptions=['all times of one history lie in one NTP era (Time64 comparison wraps at era boundaries; the 2036 rollover is outside the statement)',
                  'code under tssMu is one atomic step (see C07 for the lock discipline)',
                  'time.Time as unbounded nanoseconds; Time.Add exact, Before is <'],
@@ -37,7 +43,7 @@ CONF = dict(
     level_note=('Trusted: Coq kernel, hand-written model validated by the correspondence run, extraction, harness, hook. One NTP era. At the listeners the kernel transmit stamp and the clock reading are not observable: '
                 'that the served transmit stamp is the kernel stamp of THAT reply is checked relationally (between the software transmit time of that exchange and the receive stamp of the '
                 'request that asks for it), not by the property oracle; receive-time collisions cannot be produced through the kernel (hook-level kinds only). No axioms.'),
-    explanation='oracle clauses: reply carries the receive stamp, fresh for the client; basic/interleaved shape; interleaved iff own record with that receive stamp and rx != tx; served transmit stamp later than its receive stamp; reported transmit time recorded, unread one dropped; listener oracle: basic/interleaved shape, interleaved only if an earlier reply to the same client carried the named receive stamp (isolation), served transmit stamp later than it, own receive stamp different',
+    explanation='oracle clauses: reply carries the receive stamp, fresh for the client; basic/interleaved shape; interleaved iff own record with that receive stamp and rx != tx; served transmit stamp later than its receive stamp; reported transmit time recorded, unread one dropped; listener oracle: basic/interleaved shape, interleaved only if an earlier reply to the same client carried the named receive stamp (isolation), served transmit stamp later than it, own receive stamp different; slow link: unread exchange dropped not served, served stamp between the software transmit time of its exchange and the client\'s receipt of that reply',
     timeout_quick=900, timeout_thorough=3000,
     min_cases={'lsn.hist': 48, 'tss.flood': 1, 'tss.full': 1, 'tss.hist': 210, 'tss.lockdiscipline': 1},
 )
